@@ -246,3 +246,118 @@ def combine_rounds_contract():
     c.loop_select = loop_select
     c.region_name = "combining the rounds' maps"
     return c
+
+
+# ------------------------------------------------------------ sympy_simplify: applying the gathered merges (C03)
+NCH = z3.Int("n_changes")
+CI = z3.Function("change_idx", I_, I_)            # change_indices[i]: the function that is rewritten
+RI = z3.Function("ref_idx", I_, I_)               # ref_indices[i]: the function whose string it takes
+SI = z3.Function("new_sub", I_, Label)            # new_inv_subs[i]: the substitution that justifies it
+HASC = z3.Function("is.changed", I_, z3.BoolSort())
+FIRSTC = z3.Function("first.change", I_, I_)      # the first proposal that names function p
+RELS = z3.Function("REL1", Label, Label, Label, z3.BoolSort())    # REL1(f, s, g): function string f with substitution s applied is function g
+
+
+def _apply_loops(fnode):
+    out = []
+    for n in _ast.walk(fnode):
+        if isinstance(n, _ast.For) and any(isinstance(t, _ast.Assign) and isinstance(t.targets[0], _ast.Subscript) and getattr(t.targets[0].value, "id", None) == "all_fun" and
+                                           isinstance(t.value, _ast.Subscript) and getattr(t.value.value, "id", None) == "all_fun" for t in _ast.walk(n)):
+            out.append(n)
+    return sorted(out, key=lambda n: n.lineno)
+
+
+def apply_changes_contract(which):
+    """The loop of sympy_simplify that applies the merges proposed by all ranks (triples: function n, reference m, substitution s, found on
+    the strings as they were BEFORE the loop, with REL1(all_fun[n], s, all_fun[m])).  A proposal is applied only if neither n nor m is named by
+    an earlier proposal as the function to change; then n takes m's string and expression and s is appended to n's chain.  Proved: every function
+    either keeps string and chain, or it holds the ORIGINAL string of its reference with exactly one substitution appended that justifies it
+    (REL1(original string, s, new string)) -- the guard is what makes the reference's string still the one the proposal was found for.
+    Assumption (A-alias): the rows of all_inv_subs are not read through another name during the loop (the local slices are recomputed after it)."""
+    def region(fnode):
+        ls = _apply_loops(fnode)
+        return [ls[which]] if which < len(ls) else None
+
+    def mk(et, name, ghost):
+        def f(eng, st):
+            v = eng.fresh(T.list(et), name, st)
+            st.heap[v.addr].len = N
+            st.ghost[ghost] = st.heap[v.addr].get
+            return v
+        return f
+
+    def mk_seq(fn, et, numpy=False):
+        return lambda eng, st: st.alloc(HSeq(NCH, lambda k: (VInt(fn(k)) if et == "int" else VLabel(fn(k))), etype=T.int if et == "int" else T.label))
+
+    def setup(eng, st, args):
+        eng.nested_append = True
+        j, p = z3.Ints("j!ax p!ax")
+        eng.axioms += [
+            z3.ForAll([j], z3.Implies(z3.And(0 <= j, j < NCH), z3.And(HASC(CI(j)), FIRSTC(CI(j)) <= j)), patterns=[CI(j)]),
+            z3.ForAll([p], z3.Implies(HASC(p), z3.And(0 <= FIRSTC(p), FIRSTC(p) < NCH, CI(FIRSTC(p)) == p)), patterns=[HASC(p)]),
+        ]
+
+    def requires(S, a):
+        A0 = S.st.ghost["A0"]
+        j = z3.Int("j!rq")
+        return [("every proposal names two different functions of the list", z3.ForAll([j], z3.Implies(z3.And(0 <= j, j < NCH),
+                 z3.And(0 <= CI(j), CI(j) < N, 0 <= RI(j), RI(j) < N, CI(j) != RI(j))), patterns=[CI(j)])),
+                ("every proposal was found on the strings before the loop: REL1(all_fun[n], s, all_fun[m])",
+                 z3.ForAll([j], z3.Implies(z3.And(0 <= j, j < NCH), RELS(A0(CI(j)).t, SI(j), A0(RI(j)).t)), patterns=[SI(j)])),
+                ("lists", z3.And(N >= 0, NCH >= 0))]
+
+    def applied(j):
+        """proposal j is the first one naming its function, and its reference is not named (as a function to change) by an earlier proposal"""
+        return z3.And(FIRSTC(CI(j)) == j, z3.Not(z3.And(HASC(RI(j)), FIRSTC(RI(j)) < j)))
+
+    def rowof(S, v):
+        if isinstance(v, VMaybeNone):
+            o = S.st.heap[v.val.addr]
+            return v.isnone, o.len, o.get
+        if isinstance(v, VRef):
+            o = S.st.heap[v.addr]
+            return z3.BoolVal(False), o.len, o.get
+        return z3.BoolVal(True), z3.IntVal(0), (lambda k: VLabel(S.eng.label_of("")))
+
+    def state(S, upto, p):
+        """what is known about function p after the first `upto` proposals"""
+        af, asy, ai = S.seq(S.var("all_fun")), S.seq(S.var("all_sym")), S.seq(S.var("all_inv_subs"))
+        A0, Y0, I0 = S.st.ghost["A0"], S.st.ghost["Y0"], S.st.ghost["I0"]
+        j = FIRSTC(p)
+        ch = z3.And(HASC(p), j < upto, applied(j))
+        on, ol, og = rowof(S, I0(p))
+        nn, nl, ng = rowof(S, ai.get(p))
+        k = z3.Int(fresh_name("k!st"))
+        e = ng(k)
+        et = e.t if isinstance(e, VLabel) else None
+        changed = z3.And(af.get(p).t == A0(RI(j)).t, asy.get(p).t == Y0(RI(j)).t, z3.Not(nn), nl == z3.If(on, 0, ol) + 1,
+                         z3.ForAll([k], z3.Implies(z3.And(0 <= k, k < nl), et == z3.If(z3.And(z3.Not(on), k < ol), og(k).t, SI(j)))) if et is not None else z3.BoolVal(False))
+        same_ = z3.And(af.get(p).t == A0(p).t, asy.get(p).t == Y0(p).t, nn == on,
+                       z3.Implies(z3.Not(nn), z3.And(nl == ol, z3.ForAll([k], z3.Implies(z3.And(0 <= k, k < nl), et == og(k).t)) if et is not None else nl == 0)))
+        return z3.If(ch, changed, same_)
+
+    def inv(S, st):
+        i = S.var("__i").t
+        af, asy, ai = S.seq(S.var("all_fun")), S.seq(S.var("all_sym")), S.seq(S.var("all_inv_subs"))
+        p = z3.Int(fresh_name("p!ac"))
+        A0 = S.st.ghost["A0"]
+        return [("the three lists keep their length", z3.And(af.len == N, asy.len == N, ai.len == N)),
+                ("every function is either untouched or holds the original string and expression of its reference, with the proposal's substitution appended to its chain",
+                 z3.ForAll([p], z3.Implies(z3.And(0 <= p, p < N), state(S, i, p)), patterns=[A0(p).t]))]
+
+    def ensures(S, a, res):
+        p = z3.Int(fresh_name("p!sk"))
+        af = S.seq(S.var("all_fun"))
+        A0 = S.st.ghost["A0"]
+        j = FIRSTC(p)
+        return [("lengths unchanged", inv(S, S.st)[0][1] if False else z3.And(af.len == N)),
+                ("every function is untouched, or took its reference's original string/expression and got the proposal's substitution appended", z3.Implies(z3.And(0 <= p, p < N), state(S, NCH, p))),
+                ("semantic corollary: a rewritten function's new string is justified by the appended substitution: REL1(old string, s, new string)",
+                 z3.Implies(z3.And(0 <= p, p < N, af.get(p).t != A0(p).t), z3.And(HASC(p), RELS(A0(p).t, SI(j), af.get(p).t))))]
+
+    c = Contract("sympy_simplify", {"all_fun": mk(T.label, "all_fun", "A0"), "all_sym": mk(T.fn, "all_sym", "Y0"), "all_inv_subs": mk(T.opt(T.list(T.label)), "all_inv_subs", "I0"),
+                                    "change_indices": mk_seq(CI, "int"), "ref_indices": mk_seq(RI, "int"), "new_inv_subs": mk_seq(SI, "label")},
+                 requires=requires, ensures=ensures, setup=setup, region=region, raises=lambda S, a, e: z3.BoolVal(False))
+    c.loop_select = lambda node: LoopSpec(inv)
+    c.region_name = "applying the proposed merges (%s)" % ("parameter permutations" if which == 0 else "sign flips")
+    return c
